@@ -205,7 +205,13 @@ Arguments spec_history {state call value exn}.
 Local Open Scope Z_scope.
 
 Inductive meth := MAdd | MMul | MGet | MSub | MDiv | MBoom
-                | MHidden | MSecret | MDunder | MNoSuch | MDotted.
+                | MHidden | MSecret | MDunder | MNoSuch | MDotted
+                (* exposed special methods: __len__ -> |total| mod 7 + 1, __getitem__ k -> total + k (no change);
+                   gated k = add k after waiting (bounded) on an event: the wait is invisible to the model *)
+                | MLen | MGetItem | MGated
+                (* double-underscore names refused by the gate: __secret (private), __hidden__ (exists, not
+                   exposed), __del__ (reserved dunder, private) *)
+                | MDSecret | MDHidden | MDDel.
 Record acall := { c_meth : meth; c_arg : Z }.
 
 (* exception classes as the caller tells them apart, with their integer arguments *)
@@ -217,8 +223,8 @@ Definition acc_modulus : Z := 1000003.
 
 Definition acc_gate (s : Z) (c : acall) : option aexn :=
   match c_meth c with
-  | MSecret | MDunder => Some (EAttr WPrivate)
-  | MHidden => Some (EAttr WUnexposed)
+  | MSecret | MDunder | MDSecret | MDDel => Some (EAttr WPrivate)
+  | MHidden | MDHidden => Some (EAttr WUnexposed)
   | MNoSuch | MDotted => Some (EAttr WMissing)
   | _ => None
   end.
@@ -232,7 +238,11 @@ Definition acc_step (s : Z) (c : acall) : Z * outcome Z aexn :=
   | MSub => if s - k <? 0 then (s, Exc (EValue s k)) else (s - k, Ok (s - k))
   | MDiv => if k =? 0 then (s, Exc EZeroDiv) else (s / k, Ok (s / k))
   | MBoom => (s + k, Exc (ERuntime (s + k)))
-  | MHidden | MSecret | MDunder | MNoSuch | MDotted => (s, Exc (EAttr WMissing))   (* never reached: gated *)
+  | MLen => (s, Ok (Z.abs s mod 7 + 1))
+  | MGetItem => (s, Ok (s + k))
+  | MGated => (s + k, Ok (s + k))
+  | MHidden | MSecret | MDunder | MNoSuch | MDotted | MDSecret | MDHidden | MDDel =>
+      (s, Exc (EAttr WMissing))   (* never reached: refused by the gate *)
   end.
 
 Definition acc_seq := run_seq acc_gate acc_step.
